@@ -182,6 +182,9 @@ def _define_components(region_data):
     if comps:
         start_component = np.max(comps) + 1
         components[none_idx] = np.arange(len(none_idx)) + start_component
+        # the array was created with None items (object dtype), which
+        # cannot be stored in a FITS column
+        components = components.astype(int)
     else:
         # all components are set to None - do not write a COMPONENT
         # column
